@@ -38,9 +38,10 @@ type Data struct {
 	Input    kernel.ValueSpec   `json:"input"`
 	VarNames []string           `json:"var_names,omitempty"`
 	VarVals  []kernel.ValueSpec `json:"var_vals,omitempty"`
-	Mode     string             `json:"mode"`            // A: poll-indexed, B: tick-indexed, P: protocol only
-	K        int                `json:"k"`               // poll (A) or tick (B) at which the context is cancelled; 0 = before RunWithContext
-	KEnd     int                `json:"k_end,omitempty"` // if > 0: K = (polls or ticks of the uncancelled run) + KEnd, resolved at Exec time
+	Mode     string             `json:"mode"`              // A: poll-indexed, B: tick-indexed, P: protocol only
+	K        int                `json:"k"`                 // poll (A) or tick (B) at which the context is cancelled; 0 = before RunWithContext
+	KEnd     int                `json:"k_end,omitempty"`   // if > 0: K = (polls or ticks of the uncancelled run) + KEnd, resolved at Exec time
+	Between  bool               `json:"between,omitempty"` // K counts Next calls: the context is cancelled between two calls, just before call K
 	TickKind string             `json:"tick_kind,omitempty"`
 	ViaQuery bool               `json:"via_query,omitempty"` // Query.RunWithContext instead of Code.RunWithContext
 	Budget   int                `json:"budget"`              // step cap of the reference run (polls)
@@ -239,6 +240,9 @@ type world struct {
 	ticksLate int // ticks that completed after the close
 	tickCap   int
 	inputN    int
+	// cancelBeforeCall >= 0: the context is cancelled between two Next calls, just before call
+	// number cancelBeforeCall (0 = after RunWithContext, before the first call)
+	cancelBeforeCall int
 }
 
 func (w *world) tick() {
@@ -391,6 +395,10 @@ func run(d *Data, q *gojq.Query, code *gojq.Code, w *world, input any, vars []an
 		it = code.RunWithContext(w.ctx, input, vars...)
 	}
 	for i := 0; ; i++ {
+		if w.cancelBeforeCall == i && !w.ctx.Closed {
+			w.ctx.Cancel() // between two calls: the caller's goroutine, not a poll, is where the cancellation happens
+			o.closedIn = i
+		}
 		was := w.ctx.Closed
 		v, ok := it.Next()
 		if !was && w.ctx.Closed {
@@ -537,7 +545,7 @@ type prepared struct {
 // The callbacks registered at compile time capture one *world; each run
 // resets it in place.
 func (p *prepared) reset(closePoll, closeTick int) {
-	*p.w = world{ctx: simctx.New()}
+	*p.w = world{ctx: simctx.New(), cancelBeforeCall: -1}
 	p.w.ctx.Budget = p.d.Budget
 	p.w.ctx.CloseAt = closePoll
 	p.w.closeTick = closeTick
@@ -554,7 +562,7 @@ func (p *prepared) reset(closePoll, closeTick int) {
 }
 
 func prepare(d *Data, maxOut int) (*prepared, *kernel.Violation) {
-	p := &prepared{d: d, w: &world{ctx: simctx.New()}}
+	p := &prepared{d: d, w: &world{ctx: simctx.New(), cancelBeforeCall: -1}}
 	q, err := gojq.Parse(d.Src)
 	if err != nil {
 		p.skip = "parse error"
@@ -716,7 +724,16 @@ func check(p *prepared, d *Data, maxOut int) *kernel.Violation {
 		closeTick = d.K
 	}
 	p.reset(closePoll, closeTick)
-	if d.K == 0 && d.Mode != "P" {
+	if d.Between {
+		// cancellation between two Next calls: whatever the interpreter has left to do for call number
+		// K (a value, an error, finding out that nothing is left) is its next step, and that step
+		// returns the context's error
+		p.w.ctx.CloseAt = 0
+		p.w.cancelBeforeCall = d.K
+		if d.K%3 == 2 {
+			p.w.ctx.ErrValue = context.DeadlineExceeded
+		}
+	} else if d.K == 0 && d.Mode != "P" {
 		p.w.ctx.Cancel() // cancelled before RunWithContext
 	}
 	o := run(d, p.q, p.code, p.w, p.input(), p.vars(), maxOut)
@@ -768,7 +785,7 @@ func check(p *prepared, d *Data, maxOut int) *kernel.Violation {
 	if o.outCapHit {
 		return nil
 	}
-	if d.K == 0 {
+	if d.K == 0 && !d.Between {
 		o.closedIn = 0
 	}
 	if o.closedIn < 0 {
@@ -937,6 +954,25 @@ func (Prop) RunUnit(env *kernel.Env, unit int) {
 				break
 			}
 			out.Touch()
+		}
+		if d.Mode == "A" && !p.ref.budgetHit && !p.ref.outCapHit && p.ref.exhausted {
+			// cancellation between two Next calls, before every call up to the one that would report
+			// exhaustion
+			for j := 0; j <= len(p.ref.steps) && j <= 24; j++ {
+				dk := d
+				dk.K, dk.Between = j, true
+				v := check(p, &dk, tr.MaxOut)
+				out.Inc("evaluations")
+				out.Inc("cancel_between_next_calls")
+				if p.w.ctx.Closed && p.w.ctx.ByFault {
+					out.DistinctH("nontrivial", kernel.Mix(kernel.Hash64(d.Src+"\x00"+d.Input.JSON+"between"), uint64(j)))
+				}
+				if v != nil {
+					out.Violate(v)
+					break
+				}
+				out.Touch()
+			}
 		}
 		if out.WantSample() && idx%3 == 0 {
 			out.Sample(map[string]any{"program": d.Src, "input": d.Input.JSON, "mode": d.Mode, "tick_kind": d.TickKind,
